@@ -410,6 +410,9 @@ void large(long shard, long nshards, bool thorough) {
     if ((idx++ % nshards) != shard) continue;
     Case c; c.algo = std::get<0>(t);
     Op L; L.kind = 'L'; L.a = std::get<1>(t); L.b = std::get<2>(t); c.ops.push_back(L);
+    // "since creation or the last reset": nothing of a 2^32-byte history (length counters' high words) may survive a reset
+    { Op o; o.kind = 's'; c.ops.push_back(o); o.kind = 'r'; c.ops.push_back(o); Op u; u.kind = 'u'; u.bytes = "abc"; c.ops.push_back(u); Op d; d.kind = 'd'; d.a = 64; c.ops.push_back(d);
+      o.kind = 'r'; c.ops.push_back(o); o.kind = 's'; c.ops.push_back(o); }
     exec("large", c, false);
     if (g_failed) return;
   }
